@@ -133,6 +133,32 @@ def check(run):
         "decoders.network.find_urls": ["not is_url(GROUP)", "not is_url(url)"],
     }
     REF["decoders.network.find_urls"] = ["not is_url(normalize_percent_encoding(GROUP)[0])"]
+
+    class RxCanon(ast.NodeTransformer):
+        """re.match(<constant pattern>, x): the pattern is replaced by a token that is the same for equal-language patterns, so
+        that a reordered character class or an equivalent spelling of the heuristic's regex is the same atom"""
+        seen = []
+
+        def visit_Call(self, n):
+            self.generic_visit(n)
+            d = norm_src(n.func)
+            if d in ("re.match", "re.search", "re.fullmatch", "regex.match", "regex.search", "regex.fullmatch") and n.args and \
+                    isinstance(n.args[0], ast.Constant) and isinstance(n.args[0].value, bytes):
+                try:
+                    dfa = rx.dfa_of(n.args[0].value, "any", "any")
+                except rx.RxError:
+                    return n
+                for k, (d0, _p) in enumerate(RxCanon.seen):
+                    if rx.equal(d0, dfa):
+                        break
+                else:
+                    RxCanon.seen.append((dfa, n.args[0].value))
+                    k = len(RxCanon.seen) - 1
+                n.args[0] = ast.Constant(value=b"RX#%d" % k)
+            return n
+
+    def canon(e):
+        return ast.fix_missing_locations(RxCanon().visit(G._copy(e)))
     for fq, ref in REF.items():
         fi = prog.fn(fq)
         loops = [n for n in fi.node.body if isinstance(n, ast.For)]
@@ -156,11 +182,12 @@ def check(run):
         env = dict(common.block_env(lp.body, apps[0], unpack=True) or {})
         if fq.endswith("find_urls"):
             env.pop("group", None)
-        az = G.Atomizer(subst=env, rename=ren, is_int=isint, rewrite=rewrite)
+        spec_az = G.Atomizer(is_int=isint)
+        spec = G.f_and(*[G.f_not(spec_az.formula(canon(common.spec_expr(r)))) for r in ref])
+        az = G.Atomizer(subst={k: canon(v) for k, v in env.items()}, rename=ren, is_int=isint, rewrite=rewrite)
+        az.pre = canon
         pc = G.reach(lp.body, apps[0], az)
         need(pc is not None, f"internal: cannot locate the append of {fq}")
-        spec_az = G.Atomizer(is_int=isint)
-        spec = G.f_and(*[G.f_not(spec_az.formula(common.spec_expr(r))) for r in ref])
         okf, cm = G.equivalent(pc, spec)
         run.ob("R5-filters", f"{fq}/acceptance-condition", okf, f"{fi.module.rel}:{apps[0].lineno}",
                "a match is reported iff it passes the validator and none of the documented false-positive heuristics rejects it (nothing else can drop it)",
